@@ -24,12 +24,12 @@ theorem C11_mask (k : Nat) (P : List Char → Bool) :
     cases he
     refine ⟨rfl, fun i hi => ?_⟩
     rw [← filterMask_getD k P i hi]
-    exact (Mask.count_eq_zero_iff _).1 h i (by rw [filterMask_size]; exact hi)
+    exact (Mask.count_eq_zero_iff_disc _).1 h i (by rw [filterMask_size]; exact hi)
   · rw [if_neg h]
     refine ⟨fun m hm => ?_, fun e he => (by cases he)⟩
     cases hm
     refine ⟨filterMask_size k P, fun i hi => filterMask_getD k P i hi, ?_⟩
-    obtain ⟨i, hi, hb⟩ := (Mask.count_pos_iff _).1 (Nat.pos_of_ne_zero h)
+    obtain ⟨i, hi, hb⟩ := (Mask.count_pos_iff_disc _).1 (Nat.pos_of_ne_zero h)
     rw [filterMask_size] at hi
     exact ⟨i, hi, by rw [← filterMask_getD k P i hi]; exact hb⟩
 
@@ -52,9 +52,9 @@ theorem C11_valid_graph (k : Nat) (m : Mask) (hk : 1 ≤ k) (hm : m.size = 4 ^ k
     split at ha
     · rename_i hc
       cases ha
-      refine ⟨inducedAccessor_size k m, fun u j hu hj => inducedAccessor_ent k m u j hu hj,
-        fun u j _ hj => shift_column k u j hk hj, ?_⟩
-      obtain ⟨i, hi, hb⟩ := (Mask.count_pos_iff m).1 hc
+      refine ⟨inducedAccessor_size_disc k m, fun u j hu hj => inducedAccessor_ent_disc k m u j hu hj,
+        fun u j _ hj => shift_column_disc k u j hk hj, ?_⟩
+      obtain ⟨i, hi, hb⟩ := (Mask.count_pos_iff_disc m).1 hc
       exact ⟨i, hm ▸ hi, hb⟩
     · cases ha
   · intro e he
@@ -64,7 +64,7 @@ theorem C11_valid_graph (k : Nat) (m : Mask) (hk : 1 ≤ k) (hm : m.size = 4 ^ k
     · rename_i hc
       cases he
       refine ⟨rfl, fun i hi => ?_⟩
-      exact (Mask.count_eq_zero_iff m).1 (by omega) i (hm ▸ hi)
+      exact (Mask.count_eq_zero_iff_disc m).1 (by omega) i (hm ▸ hi)
 
 example : findVertices 1 (fun s => s == ['C']) = .ok #[false, true, false, false] := by decide +kernel
 example : findVertices 2 (fun _ => false) = .error .valueError := by decide +kernel
